@@ -17,8 +17,8 @@ theorem inv_initial (nodes : List (Name × List Name × List Name)) : Inv (initH
 
 /-! ## 1. fresh -/
 
-/-- Every derivation operation applied to a receiver of the right kind with a non-trivial argument
-(`op.derives h`: excludes the cache reads and `add_nodes()` without nodes) returns a reference that
+/-- Every derivation operation applied to a receiver of the right kind
+(`op.derives h`: excludes only the cache reads) returns a reference that
 was NOT allocated before, and only APPENDS to the heap: every old cell is unchanged modulo its
 cache slots.  No invariant is needed. -/
 theorem fresh (h : Heap) (op : Op) (hd : op.derives h = true) :
@@ -27,10 +27,12 @@ theorem fresh (h : Heap) (op : Op) (hd : op.derives h = true) :
       ((op.run h).1.objs[r]?).map Obj.erase = (h.objs[r]?).map Obj.erase :=
   ⟨(Op.run_good hd).fresh.1, (Op.run_good hd).fresh.2, (Op.run_good hd).ext.2⟩
 
-/-- the excluded case: `add_nodes()` with no nodes returns the receiver itself, heap untouched -/
-theorem fresh_addNodes_nil (h : Heap) (g : Ref) : (Op.addNodes g []).run h = (h, g) := by
-  simp only [Op.run, addNodes]
-  split <;> simp
+/-- the degenerate call `add_nodes()` with no nodes is a plain copy of the receiver (after repair
+`fix: add_nodes() without nodes returns a copy`; before it, the receiver itself came back) -/
+theorem fresh_addNodes_nil (h : Heap) (g : Ref) (hg : isGraph h g = true) :
+    (Op.addNodes g []).run h = shallowCopy h g := by
+  obtain ⟨ns, b, s, e, ci, ch, hg⟩ := isGraph_iff.mp hg
+  simp [Op.run, addNodes, hg]
 
 /-- every operation whatsoever (also a read, also on an ill-typed receiver) only appends modulo
 cache slots -/
